@@ -9,6 +9,7 @@ import (
 	"strings"
 	"unicode/utf8"
 
+	"github.com/FollowTheProcess/spok/ast"
 	"github.com/FollowTheProcess/spok/parser"
 	"pgregory.net/rapid"
 
@@ -44,6 +45,19 @@ type FmtCase struct {
 	Broken       bool `json:"broken,omitempty"`
 	ReadOnly     bool `json:"read_only,omitempty"`
 	ClosedStdout bool `json:"closed_stdout,omitempty"`
+	// Link: <project>/spokfile is a symbolic link to ../shared-src/spokfile, where the text lives
+	// (one spokfile shared by several checkouts). Whatever --fmt does, the text behind the name
+	// <project>/spokfile is what is judged.
+	Link bool `json:"link,omitempty"`
+	// SelfEdit ("after" | "before"): a task that replaces the spokfile by a next version is appended
+	// and named on the command line after / before --fmt. Whether spok runs it is its business; the
+	// file left behind defines either what it defined before (task not run) or what the next
+	// version defines (task run) - never the old definitions written over the new file.
+	SelfEdit string `json:"self_edit,omitempty"`
+	// FileLimit: the first --fmt runs with a file size limit equal to the size the spokfile has (when its
+	// formatted form is longer): writing the formatted text fails half way. spok may fail, and what
+	// it leaves of the file when it does is not judged here; if it reports success, the file is formatted.
+	FileLimit bool `json:"file_limit,omitempty"`
 }
 
 // genFmt draws an abstract program in a random layout whose loading has no side effects
@@ -57,6 +71,8 @@ func genFmt(t *rapid.T) FmtCase {
 		c.Elsewhere = true
 	case 2:
 		c.OtherCase = true
+	case 3:
+		c.Link = true
 	}
 	switch rapid.IntRange(0, 5).Draw(t, "history") {
 	case 0:
@@ -71,6 +87,10 @@ func genFmt(t *rapid.T) FmtCase {
 		c.ReadOnly, c.History = true, ""
 	case 2:
 		c.ClosedStdout, c.History = true, ""
+	case 3:
+		c.SelfEdit, c.History = rapid.SampledFrom([]string{"after", "before"}).Draw(t, "self_edit"), ""
+	case 4, 5:
+		c.FileLimit, c.History = true, ""
 	}
 	return c
 }
@@ -157,6 +177,12 @@ func execFmtBinary(id string, s *ev.Shard, b *sandbox.Box, c FmtCase) *rp.Fail {
 	if c.Broken {
 		return fmtBroken(id, s, b, c, src)
 	}
+	if c.SelfEdit != "" {
+		if id != "C07" {
+			return nil
+		}
+		src += "\n# swaps in the next version\ntask zzrewrite() {\n    cp \"$NEXT\" \"$TARGET\"\n    echo ran > \"$MARK\"\n}\n"
+	}
 	tree1, err := parser.New(src).Parse()
 	if err != nil {
 		return nil // not this check's business (C06)
@@ -187,7 +213,20 @@ func execFmtBinary(id string, s *ev.Shard, b *sandbox.Box, c FmtCase) *rp.Fail {
 		cwd = filepath.Join(b.Home, "elsewhere")
 		fmtArgs = []string{"--spokfile", path, "--fmt"}
 	}
+	if c.Link && !c.OtherCase {
+		if err := writeProject(b, b.Home, map[string]string{"shared-src/spokfile": src}); err != nil {
+			return &rp.Fail{Sig: "harness", Msg: err.Error()}
+		}
+		_ = os.Remove(path)
+		if err := os.Symlink(filepath.Join("..", "shared-src", "spokfile"), path); err != nil {
+			return &rp.Fail{Sig: "harness", Msg: err.Error()}
+		}
+		_ = b.Own()
+	}
 	size := len(src)
+	if c.SelfEdit != "" {
+		return fmtSelfEdit(s, b, c, src, tree1, path, cwd, fmtArgs)
+	}
 	before, err := sandbox.Snapshot(b.SB)
 	if err != nil {
 		return &rp.Fail{Sig: "harness", Msg: err.Error()}
@@ -196,7 +235,21 @@ func execFmtBinary(id string, s *ev.Shard, b *sandbox.Box, c FmtCase) *rp.Fail {
 		_ = os.Chmod(path, 0o444)
 	}
 	b.ClosedStdout = c.ClosedStdout
+	limited := c.FileLimit && len(tree1.String()) > len(src) && len(src) > 0
+	if limited {
+		b.FsizeLimit = int64(len(src))
+	}
 	r1 := b.Run(cwd, nil, runTimeout, fmtArgs...)
+	if limited && (r1.Exit != 0 || r1.Signal != "") {
+		// it said it could not do it
+		if s != nil {
+			s.Class("fmt_hit_a_file_size_limit")
+		}
+		return nil
+	}
+	if limited && s != nil {
+		s.Class("fmt_succeeded_under_a_file_size_limit")
+	}
 	if r1.TimedOut {
 		return &rp.Fail{Sig: "harness", Msg: "spok --fmt timed out"}
 	}
@@ -215,7 +268,7 @@ func execFmtBinary(id string, s *ev.Shard, b *sandbox.Box, c FmtCase) *rp.Fail {
 	// --fmt rewrites the file it was pointed at and nothing else (the cache directory aside): any
 	// other spokfile lying around keeps working as it did
 	if after, err := sandbox.Snapshot(b.SB); err == nil && id == "C07" {
-		target, _ := filepath.Rel(b.SB, path)
+		target := fmtTarget(b, c, path)
 		projRel, _ := filepath.Rel(b.SB, b.Proj)
 		for _, ch := range sandbox.Diff(before, after) {
 			if ch.Path == filepath.ToSlash(target) || sandbox.Under(ch.Path, filepath.ToSlash(projRel)+"/.spok") {
@@ -269,6 +322,9 @@ func execFmtBinary(id string, s *ev.Shard, b *sandbox.Box, c FmtCase) *rp.Fail {
 		if strings.Join(c1, "\x00") != strings.Join(c2, "\x00") {
 			return &rp.Fail{Sig: "fmt-changed-comments", Size: size, Msg: fmt.Sprintf("spokfile %q has comments/docstrings %q; after `spok --fmt` the file %q has %q", src, c1, f1, c2)}
 		}
+		if f := showAgrees(s, b, cwd, fmtArgs, tree2, f1, size); f != nil {
+			return f
+		}
 	case "C11":
 		if err2 != nil {
 			return nil
@@ -301,6 +357,117 @@ func execFmtBinary(id string, s *ev.Shard, b *sandbox.Box, c FmtCase) *rp.Fail {
 	return nil
 }
 
+// showAgrees: `spok --show` on the formatted file lists every task with the docstring the file
+// gives it (compared word by word: the listing aligns its columns with white space).
+func showAgrees(s *ev.Shard, b *sandbox.Box, cwd string, fmtArgs []string, tree ast.Tree, text string, size int) *rp.Fail {
+	if len(text) > 20000 {
+		return nil
+	}
+	var args []string
+	for _, a := range fmtArgs {
+		if a != "--fmt" {
+			args = append(args, a)
+		}
+	}
+	r := b.Run(cwd, nil, runTimeout, append(args, "--show")...)
+	if r.Exit != 0 || r.TimedOut {
+		return nil
+	}
+	listed := map[string][]string{}
+	for _, line := range strings.Split(sandbox.Strip(r.Stdout), "\n") {
+		if f := strings.Fields(line); len(f) > 0 {
+			if _, dup := listed[f[0]]; !dup {
+				listed[f[0]] = f[1:]
+			}
+		}
+	}
+	n := 0
+	for _, st := range gen.Canon(gen.Project(tree)) {
+		if st.Kind != "task" || !printable(st.Doc) || !printable(st.Name) || st.Name == "Name" || st.Name == "Tasks" {
+			continue
+		}
+		got, ok := listed[st.Name]
+		if !ok {
+			continue // not listed at all: a different matter (hidden or renamed tasks are not comments)
+		}
+		n++
+		if want := strings.Fields(st.Doc); strings.Join(got, " ") != strings.Join(want, " ") {
+			return &rp.Fail{Sig: "show-docstring-differs", Size: size, Msg: fmt.Sprintf("spokfile %q gives task %s the docstring %q, `spok --show` describes it as %q", clip(text), st.Name, st.Doc, strings.Join(got, " "))}
+		}
+	}
+	if s != nil && n > 0 {
+		s.Class("show_descriptions_compared")
+	}
+	return nil
+}
+
+// printable: valid UTF-8 without control characters (those the listing may render in its own way).
+func printable(x string) bool {
+	if !utf8.ValidString(x) {
+		return false
+	}
+	for _, r := range x {
+		if r < 0x20 && r != '\t' || r == 0x7f || r == 0x1b || r == 0x85 || r == 0x2028 || r == 0x2029 {
+			return false
+		}
+	}
+	return true
+}
+
+// fmtTarget: the file (relative to the sandbox) whose bytes --fmt may change.
+func fmtTarget(b *sandbox.Box, c FmtCase, path string) string {
+	if c.Link && !c.OtherCase {
+		path = filepath.Join(b.Home, "shared-src", "spokfile")
+	}
+	target, _ := filepath.Rel(b.SB, path)
+	return target
+}
+
+// fmtSelfEdit: see FmtCase.SelfEdit.
+func fmtSelfEdit(s *ev.Shard, b *sandbox.Box, c FmtCase, src string, tree1 ast.Tree, path, cwd string, fmtArgs []string) *rp.Fail {
+	next := src + "\nZZNEXT := \"the next version\"\n\n# new in the next version\ntask zzextra() {\n    echo extra\n}\n"
+	treeN, err := parser.New(next).Parse()
+	if err != nil {
+		return nil
+	}
+	nextPath, mark := filepath.Join(b.Home, "spokfile.next"), filepath.Join(b.Home, "rewrite.marker")
+	if err := os.WriteFile(nextPath, []byte(next), 0o644); err != nil {
+		return &rp.Fail{Sig: "harness", Msg: err.Error()}
+	}
+	_ = b.Own()
+	args := append(append([]string(nil), fmtArgs...), "zzrewrite")
+	if c.SelfEdit == "before" {
+		args = append([]string{"zzrewrite"}, fmtArgs...)
+	}
+	r := b.Run(cwd, []string{"NEXT=" + nextPath, "TARGET=" + path, "MARK=" + mark}, runTimeout, args...)
+	if r.TimedOut {
+		return &rp.Fail{Sig: "harness", Msg: "spok --fmt timed out"}
+	}
+	_, merr := os.Stat(mark)
+	ran := merr == nil
+	want, which := tree1, "the task was not run, so the file should define what it defined"
+	if ran {
+		want, which = treeN, "the task ran and put the next version in place, so the file should define what that version defines"
+	}
+	now, _ := os.ReadFile(path)
+	treeNow, perr := parser.New(string(now)).Parse()
+	desc := fmt.Sprintf("spokfile %q with a task that replaces the spokfile by its next version; `spok %s` (exit %d)", clip(src), strings.Join(args, " "), r.Exit)
+	if perr != nil {
+		return &rp.Fail{Sig: "fmt-broke-spokfile", Size: len(src), Msg: fmt.Sprintf("%s left %q, which does not parse: %v", desc, clip(string(now)), perr)}
+	}
+	if d := gen.Diff(gen.Semantic(gen.Project(treeNow)), gen.Semantic(gen.Project(want))); d != "" {
+		return &rp.Fail{Sig: "fmt-wrote-stale-definitions", Size: len(src), Msg: fmt.Sprintf("%s: %s, but it is %q: %s", desc, which, clip(string(now)), d)}
+	}
+	if s != nil {
+		s.Class("fmt_with_task_names_on_the_command_line")
+		if ran {
+			s.Class("fmt_ran_the_named_task")
+		}
+		s.NonTrivial("selfedit:" + src)
+	}
+	return nil
+}
+
 func clip(x string) string {
 	if len(x) > 600 {
 		return x[:300] + fmt.Sprintf(" …(%d bytes)… ", len(x)-600) + x[len(x)-300:]
@@ -313,7 +480,7 @@ func fmtHistory(id string, s *ev.Shard, b *sandbox.Box, c FmtCase, src, f1, path
 	if _, err := parser.New(f1).Parse(); err != nil {
 		return nil // C07's subject, reported there
 	}
-	target, _ := filepath.Rel(b.SB, path)
+	target := fmtTarget(b, c, path)
 	projRel, _ := filepath.Rel(b.SB, b.Proj)
 	framed := func(what string) (sandbox.Result, *rp.Fail) {
 		before, err := sandbox.Snapshot(b.SB)
